@@ -1685,6 +1685,12 @@ class Stream(AbstractStream):
         self._imol = imol = imol.copy()
         self._thermal_condition = thermal_condition = self._thermal_condition.copy()
         self.reset_cache()
+        # A proxy holds the very same characterization factor dictionary and equations object as its original
+        self.characterization_factors = dict(self.characterization_factors)
+        equations = self.equations
+        self.equations = new_equations = Equations()
+        new_equations.material = list(equations.material)
+        new_equations.energy = list(equations.energy)
         if hasattr(self, '_streams'): # Keep phase views attached to the new data
             for phase, stream in self._streams.items():
                 stream._imol = imol.get_phase(phase)
